@@ -158,12 +158,14 @@ func (w *world) prepare(i int, st WStep) (call func(in *Inst) error, post func()
 		proof := vw.Proof(hs)
 		call = func(in *Inst) error {
 			var err error
+			a := &in.ar
+			a.next()
 			if st.Op == "ingest" && in.M != nil {
-				err = in.M.Ingest(cloneHashes(hs), cloneProof(proof))
+				err = in.M.Ingest(a.hashes(hs), a.proof(proof))
 			} else if st.Op == "vpp" && in.M != nil {
-				err = vppRemember(in.M, vw, proof.Targets, hs)
+				err = vppRemember(in.M, a, vw, proof.Targets, hs)
 			} else {
-				err = in.Acc().Verify(cloneHashes(hs), cloneProof(proof), true)
+				err = in.Acc().Verify(a.hashes(hs), a.proof(proof), true)
 			}
 			if err != nil {
 				return fmt.Errorf("step %d: %s: %s of an honest proof for slots %v failed: %v", i, in.Cfg, st.Op, st.Set, err)
@@ -209,7 +211,8 @@ func (w *world) prepare(i int, st WStep) (call func(in *Inst) error, post func()
 			if in.M == nil || in.M.Full {
 				return nil // pruning is only meaningful for a partial forest
 			}
-			if err := in.M.Prune(cloneHashes(hs)); err != nil {
+			in.ar.next()
+			if err := in.M.Prune(in.ar.hashes(hs)); err != nil {
 				return fmt.Errorf("step %d: %s: Prune(slots %v) failed: %v", i, in.Cfg, st.Set, err)
 			}
 			return nil
@@ -366,8 +369,9 @@ func (g *wgen) addOnly(k int) WStep {
 // vppRemember is the partial-proof way of remembering leaves: ask the forest which proof positions it
 // lacks, hand VerifyPartialProof(remember=true) the true hashes of exactly those (often none at all:
 // siblings of leaves it already tracks).
-func vppRemember(m *u.MapPollard, v *model.View, targets []uint64, hs []Hash) error {
-	missing := m.GetMissingPositions(cloneU64(targets))
+func vppRemember(m *u.MapPollard, a *arena, v *model.View, targets []uint64, hs []Hash) error {
+	a.next()
+	missing := m.GetMissingPositions(a.u64s(targets))
 	supply := make([]Hash, 0, len(missing))
 	for _, p := range missing {
 		h, ok := v.At[p]
@@ -376,7 +380,8 @@ func vppRemember(m *u.MapPollard, v *model.View, targets []uint64, hs []Hash) er
 		}
 		supply = append(supply, h)
 	}
-	if err := m.VerifyPartialProof(cloneU64(targets), cloneHashes(hs), supply, true); err != nil {
+	a.next()
+	if err := m.VerifyPartialProof(a.u64s(targets), a.hashes(hs), a.hashes(supply), true); err != nil {
 		return fmt.Errorf("VerifyPartialProof(remember) with the %d hashes GetMissingPositions asked for (%v): %v", len(missing), missing, err)
 	}
 	return nil
